@@ -24,7 +24,7 @@ def rand_msg(rng, uid):
 
 def corrupt(rng, framed):
     b = bytearray(framed)
-    kind = rng.choice(['flip', 'drop', 'insert', 'extra_delim', 'dup_delim', 'truncate', 'drop_start', 'esc_break'])
+    kind = rng.choice(['flip', 'drop', 'insert', 'extra_delim', 'dup_delim', 'truncate', 'drop_start', 'esc_break', 'lone_escape', 'noise_gap', 'trailing_escape'])
     if kind == 'flip' and len(b) > 2:
         i = rng.randrange(1, len(b) - 1)
         b[i] ^= 1 << rng.randrange(8)
@@ -42,6 +42,16 @@ def corrupt(rng, framed):
         b = b[1:]
     elif kind == 'esc_break':
         b.insert(rng.randrange(1, len(b)), 0xFD)
+    elif kind == 'lone_escape':
+        # a stray escape byte as the only byte between two delimiters, then the (good) packet
+        b = bytearray(rng.choice([b'\xfe\xfd', b'\xfd', b'\xfe\xfd\xfe', b'\xfe\xfd\xfd'])) + b
+    elif kind == 'noise_gap':
+        # line noise between two packets: a few arbitrary bytes in front of the (good) packet
+        b = bytearray(gen.rbyte(rng, 0.5) for _ in range(rng.randrange(1, 5))) + b
+    elif kind == 'trailing_escape':
+        # the packet is cut right after an escape byte (dangling escape in front of the closing delimiter / the next packet)
+        cut = rng.randrange(1, len(b) - 1)
+        b = b[:cut] + bytearray(b'\xfd') + (bytearray(b'\xfe') if rng.random() < 0.5 else bytearray())
     return bytes(b), kind
 
 def chunked(rng, stream, style):
